@@ -4,6 +4,7 @@ import (
 	"encoding/json"
 	"fmt"
 	"strings"
+	"sync/atomic"
 
 	"github.com/influxdata/influxql"
 
@@ -73,46 +74,14 @@ func lexTokName(t influxql.Token) string {
 	return s
 }
 
-func c05evalOne(c c05Case) (fs []ev.Finding, slashPoints int, ntoks int) {
-	text := string(c.Bytes)
-	m := lexx.NewModel(text)
-	wit := fmt.Sprintf("%q regex-decisions=%v", text, c.Regex)
-	rank := len(text)*10 + len(c.Regex)
-	toks, sp, p, stale := c05scan(text, m, c.Regex)
-	firstNUL := -1
-	for i, rr := range m.Runes {
-		if rr == 0 {
-			firstNUL = i
-			break
-		}
-	}
-	curTokStart, curTokEnd := 0, 0
-	_ = curTokStart
-	rep := func(sig, detail string) {
-		// The reader uses U+0000 as its end-of-input marker: from a NUL character on, EOF is reported early and
-		// positions stop advancing. Everything observed at or after the first NUL is that one defect.
-		if firstNUL >= 0 && curTokEnd > firstNUL {
-			sig = "NUL-character-treated-as-end-of-input"
-		}
-		fs = append(fs, ev.Finding{Sig: sig, Witness: wit, Detail: detail, Case: c, Rank: rank})
-	}
-	if p != nil {
-		rep("panic:Scan", fmt.Sprint(p))
-		return fs, sp, len(toks)
-	}
-	if stale > 0 {
-		rep("rune-ring-overrun", fmt.Sprintf("%d reads of an overwritten or unfilled pushback slot", stale))
-	}
+// c05checkToks checks a token sequence with measured extents against the text: the tokens tile what was consumed,
+// each token is the runes it consumed, and its position is that of its first rune. It returns the end of the last
+// token checked.
+func c05checkToks(toks []c05tok, m *lexx.Model, rep func(sig, detail string)) int {
 	total := len(m.Runes)
-	last := toks[len(toks)-1]
-	if !(last.tok == influxql.EOF && last.after >= total) {
-		rep("no-eof-within-len+1-tokens", fmt.Sprintf("%d tokens scanned without reaching EOF at the end", len(toks)))
-		return fs, sp, len(toks)
-	}
 	next := 0
 	for i, t := range toks {
 		name := lexTokName(t.tok)
-		curTokStart, curTokEnd = t.before, t.after
 		if t.before != next {
 			rep("tiling:gap-or-overlap:"+name, fmt.Sprintf("token %d (%s) starts at rune %d, the previous one ended at %d", i, name, t.before, next))
 			break
@@ -178,6 +147,34 @@ func c05evalOne(c c05Case) (fs []ev.Finding, slashPoints int, ntoks int) {
 			rep("position:"+name+":"+disp, fmt.Sprintf("token %d (%s %q) starts at rune %d = line %d char %d, reported line %d char %d", i, name, t.lit, t.before, want.Line, want.Char, t.pos.Line, t.pos.Char))
 		}
 	}
+	return next
+}
+
+func c05evalOne(c c05Case) (fs []ev.Finding, slashPoints int, ntoks int) {
+	text := string(c.Bytes)
+	m := lexx.NewModel(text)
+	wit := fmt.Sprintf("%q regex-decisions=%v", text, c.Regex)
+	rank := len(text)*10 + len(c.Regex)
+	toks, sp, p, stale := c05scan(text, m, c.Regex)
+	rep := func(sig, detail string) {
+		// The reader uses U+0000 as its end-of-input marker: from a NUL character on, EOF is reported early and
+		// positions stop advancing. Everything observed at or after the first NUL is that one defect.
+		fs = append(fs, ev.Finding{Sig: sig, Witness: wit, Detail: detail, Case: c, Rank: rank})
+	}
+	if p != nil {
+		rep("panic:Scan", fmt.Sprint(p))
+		return fs, sp, len(toks)
+	}
+	if stale > 0 {
+		rep("rune-ring-overrun", fmt.Sprintf("%d reads of an overwritten or unfilled pushback slot", stale))
+	}
+	total := len(m.Runes)
+	last := toks[len(toks)-1]
+	if !(last.tok == influxql.EOF && last.after >= total) {
+		rep("no-eof-within-len+1-tokens", fmt.Sprintf("%d tokens scanned without reaching EOF at the end", len(toks)))
+		return fs, sp, len(toks)
+	}
+	next := c05checkToks(toks, m, rep)
 	if next != total && len(fs) == 0 {
 		rep("tiling:incomplete", fmt.Sprintf("tokens cover %d of %d runes", next, total))
 	}
@@ -266,9 +263,6 @@ func c05errorPos(text string) []ev.Finding {
 		return nil
 	}
 	m := lexx.NewModel(text)
-	if strings.ContainsRune(text, 0) {
-		return nil // after a NUL positions stop advancing (known finding)
-	}
 	found := false
 	var candidates []string
 	var rec func(dec []int)
@@ -315,6 +309,49 @@ func c05errorPos(text string) []ev.Finding {
 	return nil
 }
 
+// c05contexts are statement beginnings that leave the parser at a place where it looks at the text itself (the
+// rune look-ahead for regexes and comments, dotted names, casts) or at a plain token boundary; the tail that follows
+// is read by the parser, not by a bare scanner.
+var c05contexts = []string{
+	"SELECT a FROM ", "SELECT ", "SELECT a FROM m GROUP BY ", "SELECT f(", "SELECT f(a, ", "SELECT a FROM m WHERE a =~ ", "SELECT a FROM m WHERE a !~ ",
+	"SELECT a FROM m WHERE a = ", "SHOW TAG VALUES WITH KEY =~ ", "SHOW MEASUREMENTS WITH MEASUREMENT =~ ", "SELECT a FROM db.rp.", "SELECT a::",
+	"DROP SERIES FROM ", "SELECT a FROM m WHERE time > now() - ", "SELECT a FROM m,", "SELECT a AS b ", "SELECT a FROM m WHERE a =~\n", "",
+}
+
+// c05parserLevel: the same three clauses for the tokens the Parser obtains, rune look-ahead included. The hook logs
+// every freshly scanned token with the runes consumed before and after it.
+func c05parserLevel(text string) []ev.Finding {
+	m := lexx.NewModel(text)
+	var log []influxql.VerifToken
+	var stats influxql.VerifStats
+	if p, _ := try(func() {
+		ps := influxql.NewParser(strings.NewReader(text))
+		ps.VerifLogTokens()
+		ps.VerifSetBudget(40 * (len(m.Runes) + 8))
+		defer func() { log, stats = ps.VerifTokens(), ps.VerifStats() }()
+		_, _ = ps.ParseQuery()
+	}); p != nil {
+		if _, ok := p.(influxql.VerifBudgetExceeded); !ok {
+			return nil // panics of the parser are C04's
+		}
+	}
+	var fs []ev.Finding
+	cs := c05Case{Bytes: []byte(text), Text: "parser-level", Regex: []int{-2}}
+	wit := fmt.Sprintf("%q (through the parser)", text)
+	rep := func(sig, detail string) {
+		fs = append(fs, ev.Finding{Sig: sig, Witness: wit, Detail: detail, Case: cs, Rank: len(text)})
+	}
+	toks := make([]c05tok, len(log))
+	for i, t := range log {
+		toks[i] = c05tok{t.Tok, t.Pos, t.Lit, t.Before, t.After}
+	}
+	if stats.RuneStale > 0 {
+		rep("rune-ring-overrun", fmt.Sprintf("%d reads of an overwritten or unfilled pushback slot", stats.RuneStale))
+	}
+	c05checkToks(toks, m, rep)
+	return fs
+}
+
 func init() {
 	register(&Check{ID: "C05", Run: c05run, Replay: func(raw json.RawMessage) []ev.Finding {
 		var c c05Case
@@ -323,6 +360,9 @@ func init() {
 		}
 		if c.Text == "parse-error" {
 			return c05errorPos(string(c.Bytes))
+		}
+		if c.Text == "parser-level" {
+			return c05parserLevel(string(c.Bytes))
 		}
 		f, _, _ := c05evalOne(c)
 		return f
@@ -370,6 +410,34 @@ func c05run(r *ev.Run) {
 			}
 		}
 	})
+	// through the parser: every context x every tail of <=2 spellings (raw and joined by each separator)
+	var ptexts int64
+	runP := func(text string) {
+		cnt := r.Eval()
+		atomic.AddInt64(&ptexts, 1)
+		r.State(astx.HashString("P|"+text), true)
+		r.Sample(cnt, func() interface{} { return fmt.Sprintf("parser-level %q", text) })
+		for _, f := range c05parserLevel(text) {
+			r.Report(f)
+		}
+	}
+	pa := lexx.Core
+	if th {
+		pa = lexx.Sigma
+	}
+	parallelFor(len(pa), func(i int) {
+		for _, cx := range c05contexts {
+			runP(cx + pa[i])
+			for j := range pa {
+				runP(cx + pa[i] + pa[j])
+				for _, sep := range lexx.Separators {
+					runP(cx + pa[i] + sep + pa[j])
+				}
+			}
+		}
+	})
+	r.Set("parser_level_texts", atomic.LoadInt64(&ptexts))
+	r.Set("parser_contexts", len(c05contexts))
 	if th {
 		// length 4 over the core alphabet
 		nc := len(lexx.Core)
@@ -386,6 +454,6 @@ func c05run(r *ev.Run) {
 	r.Set("alphabet", n)
 	r.Set("max_sequence_length", k)
 	r.Set("separators", len(lexx.Separators))
-	r.Rule = fmt.Sprintf("every concatenation of <=%d spellings from a %d-spelling alphabet (raw, so neighbours fuse; pairs and triples also joined by each of %d separators incl. CR, CRLF, a multi-byte rune and a multi-line comment); wherever the next rune is '/' both Scan and ScanRegex are explored. Token extents come from the hook's count of runes consumed net of pushback, positions from an independent folding/position model. state = distinct text; non-trivial = non-empty text", k, n, len(lexx.Separators))
+	r.Rule = fmt.Sprintf("every concatenation of <=%d spellings from a %d-spelling alphabet (raw, so neighbours fuse; pairs and triples also joined by each of %d separators incl. CR, CRLF, a multi-byte rune and a multi-line comment); wherever the next rune is '/' both Scan and ScanRegex are explored. Token extents come from the hook's count of runes consumed net of pushback, positions from an independent folding/position model. state = distinct text; non-trivial = non-empty text. The same three clauses (tiling, content, position) are checked for the tokens the Parser obtains (hook: log of freshly scanned tokens with their extents) on every parser context x every tail of <=2 spellings, raw and joined by each separator", k, n, len(lexx.Separators))
 	r.Assumptions = []string{"extents are measured by the verif hook (runes fetched minus real runes pushed back), not by the positions under test"}
 }
